@@ -247,10 +247,11 @@ Theorem C18_whitespace_where_allowed_operator_expressions : forall pre post : li
 Proof. exact whitespace_where_allowed_b. Qed.
 Print Assumptions C18_whitespace_where_allowed_operator_expressions.
 
-(* (b) round brackets around a whole operator expression of any length change the tree only
+(* (b) round brackets around a whole operator expression of any length -- without the
+   separator `;`, which inside round brackets is whitespace by design -- change the tree only
    by the group node (the unbounded form of the clause [paren_ok] of the bounded theorem) *)
 Theorem C18_parens_operator_expressions : forall (toks : list token_type) (t : rtree),
-  pratt toks = Some t ->
+  no_separators toks = true -> pratt toks = Some t ->
   exists g g', parse_tree toks = Some g /\
                parse_tree (TT_StartGroup :: toks ++ [TT_EndGroup]) = Some g' /\
                strip_groups g' = strip_groups g.
@@ -285,7 +286,7 @@ Proof.
   split.
   - apply C18_whitespace_where_allowed_operator_expressions; [reflexivity|]. left. vm_compute. eexists; reflexivity.
   - destruct (pratt (ex_vp_pre ++ ex_vp_post)) as [t|] eqn:E; [|vm_compute in E; discriminate E].
-    exact (C18_parens_operator_expressions _ t E).
+    apply (C18_parens_operator_expressions _ t); [vm_compute; reflexivity|exact E].
 Qed.
 
 (* (b) continued: round brackets around ONE OPERAND anywhere inside an operator expression of
@@ -307,6 +308,7 @@ Print Assumptions C18_parens_around_value_operator_expressions.
 Theorem C18_parens_around_group_operator_expressions :
   forall (pre e post : list token_type) (t te : rtree),
   pratt (pre ++ TT_StartGroup :: e ++ TT_EndGroup :: post) = Some t -> pratt e = Some te ->
+  no_separators e = true ->
   exists g g', parse_tree (pre ++ TT_StartGroup :: e ++ TT_EndGroup :: post) = Some g /\
                parse_tree (pre ++ TT_StartGroup :: TT_StartGroup :: e ++ TT_EndGroup :: TT_EndGroup :: post) = Some g' /\
                strip_groups g' = strip_groups g.
